@@ -6,16 +6,24 @@
 (*                line by line; blank lines and comments are skipped; a    *)
 (*                coordinate line has 1-4 columns (plain or sexagesimal),  *)
 (*                the left-out trailing elements get 0, 0, 0, NaN, or the  *)
-(*                -z / -t values;                                          *)
+(*                -z / -t values; a line with MORE than 4 columns is a     *)
+(*                coordinate line as well (one output line), but the       *)
+(*                documentation does not say what becomes of the surplus   *)
+(*                columns: its tuple is left open;                         *)
 (*   batcher      tuples are collected and sent on B at a time (B = 25000  *)
 (*                in the real program; here a CONSTANT), the rest at the   *)
 (*                end of the input;                                        *)
-(*   transformer  forward, --inv, --roundtrip (forward-inverse residuals); *)
+(*   transformer  forward, --inv, --roundtrip (forward-inverse residuals,  *)
+(*                for every line of the batch, also when some lines fail;  *)
+(*                the run may be refused only when the two passes report   *)
+(*                different numbers of transformed tuples, see Mismatch);  *)
 (*   formatter    one line per tuple: the first -D elements with -d        *)
-(*                decimals;                                                *)
+(*                decimals, -d being any natural number;                   *)
 (*   exit status  an operation the library refuses, or a file that cannot  *)
 (*                be read: error message and non-zero status; otherwise,   *)
-(*                and in particular on empty input, a normal end.          *)
+(*                and in particular on empty input, a normal end.  A file  *)
+(*                with lone carriage returns for line ends: unspecified,   *)
+(*                but never an abnormal end (ForeignLineEnds).             *)
 (*                                                                         *)
 (* The numbers themselves are not modelled: "the library's result for that *)
 (* line's tuple" is computed by the library, in-process, by the binding.   *)
@@ -53,31 +61,58 @@ NoOpt == -1     \* -d / -D not given
 (*                     (names a file that does not exist),                 *)
 (*             items : Seq(item),                                          *)
 (*             eol   : the last line ends in a newline (text detail, no    *)
-(*                     influence on the machine)]                          *)
+(*                     influence on the machine),                          *)
+(*             nl    : the line terminator of the file: "lf" | "crlf" (text *)
+(*                     details, no influence on the machine) | "cr" (a     *)
+(*                     lone carriage return: neither the documentation nor *)
+(*                     the platform's notion of a text line covers it, see *)
+(*                     ForeignLineEnds)]                                   *)
 (*   item  == [t    : "c" (coordinate lines) | "blank" | "ws" (white space *)
 (*                    only) | "comment" | "icomment" (indented comment),   *)
 (*             rep  : "one" | "fill",                                      *)
-(*             cols : 1..4, or 0: line j of the item has ((j-1) % 4) + 1   *)
-(*                    columns (a mixture inside one batch),                *)
+(*             cols : 1..4, or 5..9 (surplus columns), or 0: line j of the *)
+(*                    item has ((j-1) % 4) + 1 columns (a mixture inside   *)
+(*                    one batch), or 10: ((j-1) % 7) + 1 columns (a        *)
+(*                    mixture that includes surplus columns),              *)
+(*             sep  : how the columns are separated: "sp" (one blank) |    *)
+(*                    "tab" | "multi" (leading, trailing and repeated      *)
+(*                    blanks and tabs): text detail, no influence,         *)
 (*             form : "dec" | "sexa" (first two columns sexagesimal),      *)
 (*             tail : the line ends in a comment,                          *)
 (*             fail : which lines of the item lie outside the domain of    *)
 (*                    the operation (in the direction applied first), so   *)
 (*                    that the library does not count them as successes    *)
 (*                    and returns NaN for them: "none" | "all" | "first" | *)
-(*                    "mid" | "last" | "some" (every fourth line)]         *)
+(*                    "mid" | "last" | "some" (every fourth line),         *)
+(*             fk   : what the SECOND pass of --roundtrip does with such a *)
+(*                    line (it then sees the NaN tuple the first pass left *)
+(*                    behind): "dom" - the operation lets a NaN tuple pass *)
+(*                    and counts it; "both" - not counted by the second    *)
+(*                    pass either (e.g. a NaN line under an operation that *)
+(*                    reports NaN tuples in both directions)]              *)
 (*   op    == "ok" (accepted by the library; opx picks one) | "bad"        *)
 (*   opts  == [inv, rt, z, t : BOOLEAN, d, D : Nat or NoOpt]               *)
+(*            d is any natural number: more decimals than a binary64       *)
+(*            number has (Binary64Decimals) are requested decimals too     *)
 (***************************************************************************)
 IsCoord(it) == it.t = "c"
 Mult(it)    == IF it.rep = "fill" THEN B - 2 ELSE 1
-ColsAt(it, j) == IF it.cols = 0 THEN ((j - 1) % 4) + 1 ELSE it.cols
+MaxCols == 9
+ColsAt(it, j) == IF it.cols = 0 THEN ((j - 1) % 4) + 1
+                 ELSE IF it.cols = 10 THEN ((j - 1) % 7) + 1 ELSE it.cols
 FailAt(it, j) == CASE it.fail = "none"  -> FALSE
                    [] it.fail = "all"   -> TRUE
                    [] it.fail = "first" -> j = 1
                    [] it.fail = "last"  -> j = Mult(it)
                    [] it.fail = "mid"   -> j = (Mult(it) + 1) \div 2
                    [] it.fail = "some"  -> j % 4 = 1
+\* not counted by the second pass of --roundtrip
+FailAt2(it, j) == FailAt(it, j) /\ it.fk = "both"
+
+\* Every decimal a binary64 number has lies within the first 1074 places; a request for more
+\* can only be answered with zeros ("beyond": the text must still denote the library's number,
+\* how many of the zeros are written is not compared)
+Binary64Decimals == 1074
 
 ----------------------------------------------------------------------------
 (***************************************************************************)
@@ -87,9 +122,15 @@ FailAt(it, j) == CASE it.fail = "none"  -> FALSE
 (* coordinates".  For a line that HAS the column while the option is given *)
 (* the two texts do not agree on one reading: that element is left open    *)
 (* ("z_or_col", "t_or_col") and not compared by the binding.               *)
+(* Nothing is said about a line with more than 4 columns (drop the         *)
+(* surplus? which ones?): every element of its tuple is left open ("open") *)
+(* - what IS said holds for it as well: it is a coordinate line, it gets   *)
+(* exactly one output line of -D numbers, at its place, and the run goes   *)
+(* on.                                                                     *)
 (***************************************************************************)
 ElemRule(e, c, o) ==
-    CASE e <= 2 -> IF c >= e THEN "col" ELSE "zero"
+    CASE c > 4  -> "open"
+      [] e <= 2 -> IF c >= e THEN "col" ELSE "zero"
       [] e = 3  -> IF o.z THEN (IF c >= 3 THEN "z_or_col" ELSE "z")
                    ELSE IF c >= 3 THEN "col" ELSE "zero"
       [] e = 4  -> IF o.t THEN (IF c >= 4 THEN "t_or_col" ELSE "t")
@@ -164,17 +205,12 @@ CatFiles(s, f) == IF f > Len(s.files) THEN <<>> ELSE CatItems(s, f, 1) \o CatFil
 CoordLines(s) == CatFiles(s, 1)
 RefOut(s) == LET L == CoordLines(s) IN [n \in 1..Len(L) |-> Line(L[n], s)]
 
-SrcFails(s, src) == FailAt(s.files[src[1]].items[src[2]], src[3])
+SrcFails(s, src)  == FailAt(s.files[src[1]].items[src[2]], src[3])
+SrcFails2(s, src) == FailAt2(s.files[src[1]].items[src[2]], src[3])
 HasFailing(s) == \E n \in 1..Len(CoordLines(s)) : SrcFails(s, CoordLines(s)[n])
 \* The documentation does not say how a run ends when the operation is valid but some
-\* tuples fail: the exit status is then left open.  Under --roundtrip the program may
-\* also refuse to go on ("the two directions do not report the same number of
-\* results"): an error end, with what was written before staying a correct prefix.
+\* tuples fail: the exit status is then left open.
 ExitDecided(s) == ~HasFailing(s)
-RefusalOpen(s) == s.opts.rt /\ HasFailing(s)
-
-Readable(s) == \A f \in 1..Len(s.files) : s.files[f].src # "missing"
-RefStatus(s) == IF s.op = "ok" /\ Readable(s) THEN "ok" ELSE "error"
 
 \* The same program, written differently: all lines first, then cut into
 \* chunks of b, each chunk transformed and formatted on its own.
@@ -188,6 +224,30 @@ ChunkedOut(s, b) ==
     LET cs == Chunks(CoordLines(s), b)
     IN Flat([c \in 1..Len(cs) |-> [k \in 1..Len(cs[c]) |-> Line(cs[c][k], s)]])
 
+\* --roundtrip, the one documented way to end early.  The program applies the operation in
+\* one direction and then in the other to one batch at a time; the library reports for each
+\* pass how many tuples it transformed.  When the two passes of a batch do NOT report the same
+\* number, the program may refuse to go on ("Roundtrip - mismatch between number of Fwd and
+\* Inv results"): an error end, with what was written before staying a correct prefix (the
+\* statement says "prints the residuals", the program's message says why it does not: both
+\* ends are admitted).  When the two numbers ARE the same - no line fails, or every failing
+\* line fails in both passes - nothing justifies a refusal: the batch is printed, every line
+\* of it as the residual of its own tuple (NaN where the library says so).
+Mismatch(s, q) == Cardinality({k \in 1..Len(q) : SrcFails(s, q[k])})
+                  # Cardinality({k \in 1..Len(q) : SrcFails2(s, q[k])})
+RefusalOpen(s) == /\ s.opts.rt
+                  /\ LET cs == Chunks(CoordLines(s), B) IN \E c \in 1..Len(cs) : Mismatch(s, cs[c])
+
+\* How the run must end.  "open": the input contains a file that is not made of text lines in
+\* the sense of the documentation or the platform (lone carriage returns); all that is demanded
+\* then is that the program does not end abnormally.  The first file argument that is missing or
+\* foreign decides (the files are read in order).
+Trouble(s) == {f \in 1..Len(s.files) : s.files[f].src = "missing" \/ s.files[f].nl = "cr"}
+FirstTrouble(s) == CHOOSE f \in Trouble(s) : \A g \in Trouble(s) : f <= g
+RefStatus(s) == IF s.op # "ok" THEN "error"
+                ELSE IF Trouble(s) = {} THEN "ok"
+                ELSE IF s.files[FirstTrouble(s)].src = "missing" THEN "error" ELSE "open"
+
 ----------------------------------------------------------------------------
 (***************************************************************************)
 (* The machine, one action per step the program takes.                     *)
@@ -198,8 +258,9 @@ VARIABLES shape,    \* the input and the command line (never changes)
           buf,      \* the batch being collected: Seq(<<f, i, j>>)
           res,      \* the batch after transformation
           out,      \* lines written to stdout so far
-          status    \* "run", then "ok" (normal end), "error" (message on stderr, non-zero status)
-                    \* or "refused" (an error end that the documentation leaves open, see RefuseRoundtrip)
+          status    \* "run", then "ok" (normal end), "error" (message on stderr, non-zero status),
+                    \* "refused" (an error end that the documentation leaves open, see RefuseRoundtrip)
+                    \* or "open" (any end but an abnormal one, see ForeignLineEnds)
 
 vars == <<shape, pc, fi, ii, jj, buf, res, out, status>>
 
@@ -220,13 +281,20 @@ BadOperation == /\ pc = "start" /\ shape.op = "bad"
                 /\ pc' = "done" /\ status' = "error"
                 /\ UNCHANGED <<shape, fi, ii, jj, buf, res, out>>
 
-OpenFile == /\ pc = "open" /\ fi <= Len(Files) /\ CurFile.src # "missing"
+OpenFile == /\ pc = "open" /\ fi <= Len(Files) /\ CurFile.src # "missing" /\ CurFile.nl # "cr"
             /\ pc' = "read" /\ ii' = 1 /\ jj' = 1
             /\ UNCHANGED <<shape, fi, buf, res, out, status>>
 
 OpenFails == /\ pc = "open" /\ fi <= Len(Files) /\ CurFile.src = "missing"
              /\ pc' = "done" /\ status' = "error"
              /\ UNCHANGED <<shape, fi, ii, jj, buf, res, out>>
+
+\* A file whose "lines" end in lone carriage returns: what the program makes of it is not
+\* specified (one long line? as many lines as there are carriage returns?); from here on the
+\* only demand is the universal one: no abnormal end.
+ForeignLineEnds == /\ pc = "open" /\ fi <= Len(Files) /\ CurFile.src # "missing" /\ CurFile.nl = "cr"
+                   /\ pc' = "done" /\ status' = "open"
+                   /\ UNCHANGED <<shape, fi, ii, jj, buf, res, out>>
 
 Advance == IF jj < Mult(CurItem) THEN jj' = jj + 1 /\ ii' = ii
            ELSE ii' = ii + 1 /\ jj' = 1
@@ -261,10 +329,11 @@ Transform == /\ pc = "transform"
              /\ buf' = <<>> /\ pc' = "format"
              /\ UNCHANGED <<shape, fi, ii, jj, out, status>>
 
-\* Left open by the documentation: with --roundtrip, a batch containing a tuple the
-\* library fails on may end the run with an error instead of being printed.
+\* With --roundtrip, a batch for which the two passes do not report the same number of
+\* transformed tuples may end the run with an error instead of being printed (see Mismatch);
+\* every other batch is printed.
 RefuseRoundtrip == /\ pc = "transform" /\ shape.opts.rt
-                   /\ \E k \in 1..Len(buf) : SrcFails(shape, buf[k])
+                   /\ Mismatch(shape, buf)
                    /\ pc' = "done" /\ status' = "refused"
                    /\ UNCHANGED <<shape, fi, ii, jj, buf, res, out>>
 
@@ -275,7 +344,7 @@ Format == /\ pc = "format"
              ELSE pc' = "read" /\ UNCHANGED status
           /\ UNCHANGED <<shape, fi, ii, jj, buf>>
 
-Next == Instantiate \/ BadOperation \/ OpenFile \/ OpenFails \/ SkipLine \/ ReadCoord
+Next == Instantiate \/ BadOperation \/ OpenFile \/ OpenFails \/ ForeignLineEnds \/ SkipLine \/ ReadCoord
         \/ EndOfFile \/ EndOfInput \/ Transform \/ RefuseRoundtrip \/ Format
 
 Spec == Init /\ [][Next]_vars
@@ -284,7 +353,7 @@ Spec == Init /\ [][Next]_vars
 \* Properties
 
 TypeOK == /\ pc \in {"start", "open", "read", "transform", "format", "done"}
-          /\ status \in {"run", "ok", "error", "refused"}
+          /\ status \in {"run", "ok", "error", "refused", "open"}
           /\ (status = "run") <=> (pc # "done")
           /\ Len(buf) <= B /\ Len(res) <= B
 
@@ -308,6 +377,10 @@ StatusInv == pc = "done" =>
 \* failing tuples do not cost output lines: every coordinate line, failed or not, is reported
 FailedLinesInv == (pc = "done" /\ status = "ok") =>
     Cardinality({n \in 1..Len(out) : ~out[n].ok}) = Cardinality({n \in 1..Len(CoordLines(shape)) : SrcFails(shape, CoordLines(shape)[n])})
+
+\* a run is refused only under --roundtrip and only with a batch in hand whose two passes disagree;
+\* in particular a batch in which every failing line fails in both passes is printed
+RefusalInv == status = "refused" => (shape.opts.rt /\ pc = "done" /\ buf # <<>> /\ Mismatch(shape, buf))
 
 \* empty input (no file content, or blank lines and comments only): no output, normal end
 EmptyInputInv == (pc = "done" /\ RefStatus(shape) = "ok" /\ CoordLines(shape) = <<>> /\ ~DEV_EmptyFinalBatch)
@@ -351,11 +424,15 @@ Emit == pc = "done" =>
         exit_compared |-> ExitDecided(shape),
         B      |-> B,
         nfail  |-> Cardinality({n \in 1..Len(CoordLines(shape)) : SrcFails(shape, CoordLines(shape)[n])}),
+        nfail2 |-> Cardinality({n \in 1..Len(CoordLines(shape)) : SrcFails2(shape, CoordLines(shape)[n])}),
         mode   |-> Mode(shape.opts),
         ones   |-> Cardinality({n \in 1..Len(h) : Files[h[n].f].items[h[n].i].rep = "one"}),
         fills  |-> Cardinality({n \in 1..Len(h) : Files[h[n].f].items[h[n].i].rep = "fill"}),
         out    |-> [n \in 1..Len(h) |-> <<h[n].f, h[n].i>>],
-        rules  |-> [c \in 1..4 |-> TupleRule(c, shape.opts)],
-        compare |-> IF shape.opts.d # NoOpt /\ shape.opts.D # NoOpt THEN "numbers" ELSE "count"
+        rules  |-> [c \in 1..MaxCols |-> TupleRule(c, shape.opts)],
+        compare |-> IF RefStatus(shape) = "open" THEN "nopanic"
+                    ELSE IF shape.opts.d # NoOpt /\ shape.opts.D # NoOpt THEN "numbers" ELSE "count",
+        decimals |-> IF shape.opts.d = NoOpt THEN "guess"
+                     ELSE IF shape.opts.d <= Binary64Decimals THEN "shown" ELSE "beyond"
     ])>>)
 =============================================================================
